@@ -123,15 +123,15 @@ class LeakyReLU(Transform):
 
     def forward(self, inputs, context=None):
         outputs = F.leaky_relu(inputs, negative_slope=self.negative_slope)
-        mask = (inputs < 0).type(torch.Tensor)
-        logabsdet = self.log_negative_slope * mask
+        mask = (inputs < 0).to(inputs.dtype)
+        logabsdet = self.log_negative_slope.to(inputs) * mask
         logabsdet = torchutils.sum_except_batch(logabsdet, num_batch_dims=1)
         return outputs, logabsdet
 
     def inverse(self, inputs, context=None):
         outputs = F.leaky_relu(inputs, negative_slope=(1 / self.negative_slope))
-        mask = (inputs < 0).type(torch.Tensor)
-        logabsdet = -self.log_negative_slope * mask
+        mask = (inputs < 0).to(inputs.dtype)
+        logabsdet = -self.log_negative_slope.to(inputs) * mask
         logabsdet = torchutils.sum_except_batch(logabsdet, num_batch_dims=1)
         return outputs, logabsdet
 
